@@ -50,6 +50,10 @@ func (r *SyncRing[T]) Init(cap int) {
 	for i := range r.values {
 		r.values[i].pos = uint32(i)
 	}
+
+	// the slots start a new lap at position 0, so the counters of a ring that was in use must too
+	atomic.StoreUint32(&r.head, 0)
+	atomic.StoreUint32(&r.tail, 0)
 }
 
 // IsEmpty returns true if the ring is empty.
